@@ -197,6 +197,57 @@ def history_independence(prefix, frame):
     return Out(parts=parts, obs={"after_prefix": s, "fresh": ref_sum})
 
 
+def _tracking_scores(fr):
+    out = []
+    for ts in fr.metrics_score.tracking_scores:
+        for c in ts.clears:
+            out += [c.tp, c.fp, c.id_switch, c.mota, c.motp, c.tp_matching_score]
+    return out
+
+
+def tracking_predecessor(prefix):
+    """tracking scores of frame B depend on B and the immediately preceding frame A only: evaluating [.., A, B] on one
+    manager gives B the scores it gets on a fresh manager that saw just [A, B]; ID switches are counted against A."""
+    pose = S.Pose("base_link", "id")
+    track_b = choose("b_estimate_track", ["t1", "t2"])
+    spec = {"A": (0, "t1"), "B": (100000, track_b), "C": (200000, "t3")}
+    objs, frames = {}, []
+    for k, (name, (t, track)) in enumerate(spec.items()):
+        g = S.SObj(f"g{name}", pose, CAR, 10.0 + 2.0 * k, 0.0, is_gt=True, unix_time=t, uuid="gt_track")
+        e = S.SObj(f"e{name}", pose, CAR, 10.0 + 2.0 * k + real(f"e{name}_offset", -3, 3), 0.0, conf=0.9 - 0.1 * k,
+                   unix_time=t, uuid=track)
+        objs[name] = (e, g, t)
+        frames.append(FrameGroundTruth(t, str(k), [g.obj], transforms=pose.transforms))
+    idx = {"A": 0, "B": 1, "C": 2}
+
+    def run(seq):
+        mgr, cfg = _manager(frames, task="tracking")
+        filt = _filters(cfg, 150.0)
+        res = None
+        for name in seq:
+            e, g, t = objs[name]
+            res = mgr.add_frame_result(t, mgr.ground_truth_frames[idx[name]], [e.obj], *filt)
+        return res, mgr
+
+    ref, _ = run(["A", "B"])
+    got, mgr = run(list(prefix) + ["A", "B"])
+    a, b = _tracking_scores(ref), _tracking_scores(got)
+    parts = {"same_tracking_scores_after_prefix": _close_all(b, a),
+             "same_detection_scores_after_prefix": _close_all(_scores(got.metrics_score), _scores(ref.metrics_score))}
+    # oracle for the centre-distance CLEAR (threshold 1.0, label car), as CLEAR defines it: a pairing that continues a
+    # TP of frame A (same estimate id, same ground-truth track) inherits A's TP; otherwise B's estimate is a TP iff it is
+    # within 1 m, and that TP is an ID switch iff A had a TP on the same ground-truth track under another estimate id
+    eA, gA, _ = objs["A"]
+    eB, gB, _ = objs["B"]
+    tp_a, tp_b = S.dist2(eA, gA) < 1.0, S.dist2(eB, gB) < 1.0
+    same_track = track_b == "t1"
+    c = ref.metrics_score.tracking_scores[0].clears[0]
+    parts["tp_oracle"] = L.Iff(c.tp == 1, L.Or(L.And(same_track, tp_a), tp_b))
+    parts["id_switch_iff_track_changed"] = L.Iff(c.id_switch == 1, L.And(tp_a, tp_b, not same_track))
+    parts["fp_is_the_rest"] = L.close(c.tp + c.fp, 1, 1e-9)
+    return Out(parts=parts, obs={"ref": a, "after_prefix": b})
+
+
 def obligations(pid, tier):
     quick = tier == "quick"
     pool = [dict(n0=1, m0=1, n1=2, m1=1), dict(n0=1, m0=1, n1=1, m1=2), dict(n0=2, m0=1, n1=1, m1=1),
@@ -207,7 +258,12 @@ def obligations(pid, tier):
     if not quick:
         prefixes += [["other", "narrow", "scene"], ["narrow", "narrow"], ["wide", "other", "wide"]]
     hist = [dict(prefix=p, frame=f) for p in prefixes for f in (("base_link",) if (quick and len(p) > 1) else ("base_link", "map"))]
+    trk = [dict(prefix=p) for p in ([[], ["C"], ["B"], ["A", "C"]] if quick else [[], ["C"], ["B"], ["A", "C"], ["B", "C"],
+                                                                               ["C", "B", "A"], ["B", "A", "B"]])]
     return [
+        Obligation("tracking_predecessor", tracking_predecessor, cases=trk, extras=S.frame_extras,
+                   desc="tracking task: frame B's CLEAR scores after any prefix of other frames = those after [A, B] on a "
+                        "fresh manager (only the immediately preceding frame matters); TP / ID-switch oracle"),
         Obligation("pooling", pooling, cases=pool, extras=S.frame_extras,
                    desc="get_scene_result: GT counts add up, one-frame scene = frame, scene AP = AP of pooled results, "
                         "order-independent"),
@@ -230,9 +286,11 @@ def meta(pid):
         "bounds": {"quick": "pooling: 2 frames with <= 2 estimates and <= 2 ground truths, positions of the first frame "
                             "symbolic; history independence: one 2x2 frame (symbolic positions) evaluated after 7 call "
                             "prefixes of length <= 3 made of {same frame with a narrow / wide critical filter, another "
-                            "frame, scene-score query}, ego and map frame",
+                            "frame, scene-score query}, ego and map frame; tracking: three 1x1 frames (symbolic estimate "
+                            "offsets, B's estimate keeps or changes its track id), frame B evaluated after A following 4 "
+                            "prefixes of other frames",
                    "thorough": "2x2 frames in both pooling frames; 10 prefixes"},
-        "outside": ["longer histories", "tracking predecessors (C05/C07 cover the two-frame tracking scores)",
+        "outside": ["longer histories", "tracking scenes with more than one object per frame (C05 covers CLEAR itself)",
                     "real dataset loading (C16)"],
         "stand_ins": ["environment: load_all_datasets returns the frames built by the harness, the two visualizer classes are "
                       "empty; numpy proxy, Rot, ConvexPolygon, lazy matching wrappers"],
